@@ -429,3 +429,57 @@ class ConcShapeEnv:
                 arr.reshape(-1)[:] = [Fraction(v) for v in vals]
             return S.from_array(arr, dtype or torch.get_default_dtype())
         return torch.tensor(vals, dtype=torch.float64).reshape(shape_t)
+
+
+# ---- polygons parametrised by origin + two edge vectors (C06) ---------------------------------
+# The same constructors and the same set of shapes as parallelogram()/triangle() (a bijective change of
+# variables: corner_1 = origin + d1, corner_2 = origin + d2, computed with tensor operations), but the
+# polynomials the solver sees are in the 4 edge-vector components instead of differences of 6 corner
+# coordinates.  dep='t': d1 depends affinely on the parameter t (as corner_1 does in the catalogue builders).
+
+
+class _Sum:
+    """Aff-like: value = a + b (both Aff), for the oracle and for the harness"""
+
+    def __init__(self, a, b):
+        self.a, self.b = a, b
+        self.var = a.var or b.var
+        self.dim = a.dim
+
+    def tp(self):
+        fa, fb = self.a.tp(), self.b.tp()
+        if self.var is None:
+            return fa + fb
+        ca, cb = callable(fa), callable(fb)
+
+        def f(t):
+            return (fa(t) if ca else fa) + (fb(t) if cb else fb)
+        return f
+
+    def oracle(self):
+        oa, ob = self.a.oracle(), self.b.oracle()
+        return lambda prm: [x + y for x, y in zip(oa(prm), ob(prm))]
+
+
+def _polygon_d(env, kind, tag, var, dep, base=0):
+    """base (triangles): index of the vertex the two edge vectors start from -- vertex[base] = q,
+    vertex[base+1] = q + d1, vertex[base+2] = q + d2 (cyclically); every choice covers all triangles."""
+    X = tp.spaces.R2(var)
+    q, d1, d2 = Aff(env, tag + "o", 2, None), Aff(env, tag + "d", 2, dep), Aff(env, tag + "e", 2, None)
+    v = [None, None, None]
+    v[base % 3], v[(base + 1) % 3], v[(base + 2) % 3] = q, _Sum(q, d1), _Sum(q, d2)
+    if kind == "Parallelogram":
+        assert base == 0
+    dom = getattr(tp.domains, kind)(X, v[0].tp(), v[1].tp(), v[2].tp())
+    os_ = (O.OParallelogram if kind == "Parallelogram" else O.OTriangle)(v[0].oracle(), v[1].oracle(), v[2].oracle())
+    sh = Sh(kind, dom, os_, [(dep, 1)] if dep else [], [(var, 2)])
+    sh.corner_affs = v  # harness access to the corner values (Aff-like: .tp(), .oracle(), .var)
+    return sh
+
+
+def parallelogram_d(env, tag="P", var="x", dep=None):
+    return _polygon_d(env, "Parallelogram", tag, var, dep)
+
+
+def triangle_d(env, tag="T", var="x", dep=None, base=0):
+    return _polygon_d(env, "Triangle", tag, var, dep, base)
